@@ -155,7 +155,7 @@ def gen_universe(seed: int, quick: bool) -> tuple[list[str], list[str]]:
           "Literal[Color.R]", "Literal[Color.G]", "Color", "str", "E", "Co[B]", "Tuple[int]"]
     pairs = [(a, b) for a in un for b in un if a != b]
     rng.shuffle(pairs)
-    for a, b in pairs[: (40 if quick else 200)]:
+    for a, b in pairs[: (25 if quick else 200)]:
         u.append(f"Union[{a}, {b}]")
     u += ["Union[Literal[True], Literal[False]]", "Union[Literal[False], Literal[True]]",
           "Union[Literal[Color.R], Literal[Color.G]]", "Union[Literal[Color.G], Literal[Color.R], None]",
@@ -167,7 +167,7 @@ def gen_universe(seed: int, quick: bool) -> tuple[list[str], list[str]]:
         u.append(f"Tuple[{a}, ...]")
     tps = [(a, b) for a in tp for b in tp]
     rng.shuffle(tps)
-    for a, b in tps[: (15 if quick else 100)]:
+    for a, b in tps[: (10 if quick else 100)]:
         u.append(f"Tuple[{a}, {b}]")
     u += ["Sequence[int]", "Sequence[Any]", "Sequence[A]", "Iterable[B]"]
 
@@ -187,7 +187,7 @@ def gen_universe(seed: int, quick: bool) -> tuple[list[str], list[str]]:
             n = rng.choice([1, 2, 2, 3])
             return "Tuple[" + ", ".join(deep(d - 1) for _ in range(n)) + "]"
         return f"Tuple[{deep(d - 1)}, ...]"
-    for _ in range(30 if quick else 250):
+    for _ in range(20 if quick else 250):
         u.append(deep(rng.choice([2, 2, 3])))
     seen: set[str] = set()
     core = [x for x in u if not (x in seen or seen.add(x))]
